@@ -246,6 +246,11 @@ func (e *Engine) callFn(s *State, f *Frame, x ssa.Value, fn *ssa.Function, bind 
 		e.setRes(f, x, e.opaqueResult(s, fn.Signature.Results(), fn.Name()))
 		return nil, false
 	}
+	// String() methods of external types are only used for log and error messages
+	if fn.Name() == "String" && fn.Signature.Params().Len() == 0 && fn.Signature.Results().Len() == 1 && isString(fn.Signature.Results().At(0).Type()) {
+		e.setRes(f, x, Str{Kind: 1, Atom: e.freshVar(s, "stringer", BVS(64))})
+		return nil, false
+	}
 	panic(engErr("call of external function without stub or model: " + full))
 }
 
